@@ -1,24 +1,1312 @@
-//! C07 — not implemented yet (stub so that the registry compiles).
+//! C07 — idle blocking is unobservable: whenever kanata decides it may stop its 1 ms loop until the
+//! next input event, nothing is pending; sleeping through the gap and ticking through the gap give
+//! the same outputs; and the real threaded loop produces the same keys as the deterministic stepper.
+//!
+//! Part 1 (relational, no model): `run_loop` reproduces the control flow of
+//! `Kanata::start_processing_loop` in virtual time (integer milliseconds, zero processing time):
+//!
+//! ```text
+//! loop {
+//!   can_block = k.can_block_update_idle_waiting(ms_elapsed)
+//!   if can_block { ev = recv()            // sleeps until the next event
+//!                  last_tick = now - 1ms; handle(ev); ms_elapsed = handle_time_ticks() /* == 1 */ }
+//!   else match try_recv() {
+//!       Ok(ev) => { handle(ev); ms_elapsed = handle_time_ticks() /* now - last_tick */ }
+//!       Empty  => { ms_elapsed = handle_time_ticks(); sleep(1ms) } } }
+//! ```
+//!
+//! Run L executes exactly that. Run R replays L's iteration sequence, except that wherever L slept
+//! g ms it executes g single ticks (consulting the predicate after each, like the loop would) and
+//! then handles the event and the wake tick exactly as L did. Outputs are stamped with virtual wall
+//! time. Required: no output in any of R's gap ticks, and identical traces of L and R.
+//!
+//! Part 2: the real `Kanata::start_processing_loop` thread, fed through its real channel with real
+//! sleeps on time-insensitive configurations, must emit the same ordered OS stream as the stepper.
 
+#[path = "dcommon.rs"]
+pub mod dcommon;
+
+use self::dcommon::{kind_class, ordered_stream};
+use crate::core::rng::Rng;
+use crate::core::runner::guarded;
+use crate::core::sim::{first_diff, osc, render_hist, Ev, FileMap, Out, Sim};
 use crate::core::{CaseOut, Check, Ctx};
+use crate::gen::{self, Profile, K};
+use kanata_keyberon::layout::State;
+use serde_json::{json, Value};
 
 pub struct C07Check;
 pub static C07: C07Check = C07Check;
+
+// ------------------------------------------------------------------------------------------
+// the loop emulator
+// ------------------------------------------------------------------------------------------
+
+/// virtual wall clock starts here (so that `t - 1` never underflows)
+const T0: u64 = 1;
+
+const FEATS: &[&str] = &[
+    "key_state", "layer_state", "custom_state", "fakekey_state", "os_key_down", "os_button_down", "oneshot_keys",
+    "dynmacro_recording", "dynmacro_saved", "history_younger_than_1s", "vkey_or_fakerow_state", "input_pause_countdown_pending",
+    "os_key_not_backed_by_state",
+];
+
+/// kanata's list of output keys of the last tick contains a key that no state of the layout
+/// produces (e.g. the key of a macro that was cancelled in this tick; also legitimately: override /
+/// unmod outputs)
+fn stale_os_key(sim: &Sim) -> bool {
+    if sim.k.prev_keys.is_empty() {
+        return false;
+    }
+    let l = sim.k.layout.b();
+    sim.k.prev_keys.iter().any(|k| !l.keycodes().any(|c| c == *k))
+}
+
+fn feats(sim: &Sim) -> u32 {
+    let mut f = 0u32;
+    let l = sim.k.layout.b();
+    for s in l.states.iter() {
+        match s {
+            State::NormalKey { coord, .. } => {
+                f |= 1;
+                if coord.0 != 0 {
+                    f |= 1 << 10;
+                }
+            }
+            State::LayerModifier { .. } => f |= 2,
+            State::Custom { .. } => f |= 4,
+            State::FakeKey { .. } => f |= 8,
+            _ => {}
+        }
+    }
+    if !sim.os.keys_down.is_empty() {
+        f |= 16;
+    }
+    if !sim.os.btns_down.is_empty() {
+        f |= 32;
+    }
+    if !l.oneshot.keys.is_empty() {
+        f |= 64;
+    }
+    if sim.k.dynamic_macro_record_state.is_some() {
+        f |= 128;
+    }
+    if !sim.k.dynamic_macros.is_empty() {
+        f |= 256;
+    }
+    if l.historical_keys.iter_hevents().next().map(|h| h.ticks_since_occurrence < 1000).unwrap_or(false) {
+        f |= 512;
+    }
+    if l.oneshot.pause_input_processing_ticks > 0 {
+        f |= 1 << 11;
+    }
+    if stale_os_key(sim) {
+        f |= 1 << 12;
+    }
+    f
+}
+
+/// Emulated repairs used only to *classify* a violation that was already found: L' is L with the
+/// loop refusing to block while the suspected pending state exists. If L' and its R' agree, the
+/// violation is entirely explained by that cause.
+#[derive(Clone, Copy, Default, PartialEq, Debug)]
+struct Fix {
+    /// keep ticking while keyberon's input-processing pause (rapid-event-delay) counts down
+    pause: bool,
+    /// one more tick before blocking when an OS key is down that no layout state backs
+    stale: bool,
+    /// (zippychord configs) keep ticking until 10 002 ms after the last input or output
+    zippy: bool,
+    /// keep ticking while a one-shot release is due on the next tick (timeout 0, keys present)
+    oneshot0: bool,
+    /// keep ticking while a dynamic macro is being recorded (the recorder counts ticks as delays)
+    recording: bool,
+}
+
+#[derive(Clone, Debug)]
+struct Block {
+    t: u64,
+    gap: u64,
+    feats: u32,
+    last: bool,
+}
+
+#[derive(Default)]
+struct RunRes {
+    /// the blocking decision taken in every loop iteration
+    plan: Vec<bool>,
+    /// R only: iterations where R's own predicate disagreed with the decision it replays
+    pred_mismatch: u64,
+    blocks: Vec<Block>,
+    /// R only: outputs observed during gap ticks (index of the blocked point, output)
+    gap_out: Vec<(usize, Out)>,
+    /// R only: gaps during which the predicate turned false again
+    unblocked_in_gap: u64,
+    ended_blocked: bool,
+    ticks: u64,
+    gap_ticks: u64,
+}
+
+fn one_tick(sim: &mut Sim, t: u64) {
+    sim.now = t - 1;
+    sim.tick();
+}
+
+/// Execute the processing loop in virtual time over the arrivals `arr` (virtual time, event).
+/// `plan == None`: run L (decisions come from kanata). `plan == Some(p)`: run R (replay p, tick
+/// through every slept gap).
+fn run_loop(sim: &mut Sim, arr: &[(u64, Ev)], final_gap: u64, spin_bound: u64, plan: Option<&[bool]>, fix: Fix) -> RunRes {
+    let mut res = RunRes::default();
+    let is_r = plan.is_some();
+    let mut t = T0;
+    let mut last_tick = T0;
+    let mut ms_elapsed: u16 = 0;
+    let mut next = 0usize;
+    let mut it = 0usize;
+    let mut spin_after_last = 0u64;
+    let mut stale_used = false;
+    let mut stale_defer = false;
+    let mut last_activity = T0;
+    let mut seen_outputs = 0usize;
+    loop {
+        let mut own = sim.k.can_block_update_idle_waiting(ms_elapsed);
+        if sim.trace.len() != seen_outputs {
+            seen_outputs = sim.trace.len();
+            last_activity = t;
+        }
+        if fix.stale && !is_r && !stale_os_key(sim) {
+            // the condition is gone: a later occurrence gets its own extra tick
+            stale_used = false;
+            stale_defer = false;
+        }
+        if own && !is_r {
+            if fix.pause && sim.k.layout.b().oneshot.pause_input_processing_ticks > 0 {
+                own = false;
+            }
+            if fix.stale && !stale_used && stale_os_key(sim) {
+                // (spent once a tick has really been executed, see below)
+                stale_defer = true;
+                own = false;
+            }
+            if fix.oneshot0 && sim.k.layout.b().oneshot.timeout == 0 && !sim.k.layout.b().oneshot.keys.is_empty() {
+                own = false;
+            }
+            if fix.recording && sim.k.dynamic_macro_record_state.is_some() {
+                own = false;
+            }
+            if fix.zippy && t - last_activity < 10_002 {
+                own = false;
+            }
+        }
+        let can_block = match plan {
+            Some(p) => {
+                let Some(&d) = p.get(it) else { break };
+                if d != own {
+                    res.pred_mismatch += 1;
+                }
+                d
+            }
+            None => own,
+        };
+        res.plan.push(can_block);
+        it += 1;
+        if DEBUG.load(std::sync::atomic::Ordering::Relaxed) {
+            let l = sim.k.layout.b();
+            eprintln!(
+                "  [{}{:?}] t={t} pred={own} decision={can_block} ms_elapsed={ms_elapsed} next_ev={:?} os={:?} states={:?} active_seq={} queue={} pause={} prev_keys={:?} cancel_dur={}",
+                if is_r { "R" } else { "L" }, fix, arr.get(next), sim.os.keys_down, l.states, l.active_sequences.len(), l.queue.len(), l.oneshot.pause_input_processing_ticks, sim.k.prev_keys, sim.k.macro_on_press_cancel_duration
+            );
+        }
+        if can_block {
+            let (gap, ev, last) = match arr.get(next) {
+                Some((te, ev)) => (te.saturating_sub(t), Some(ev), false),
+                None => (final_gap, None, true),
+            };
+            let bi = res.blocks.len();
+            res.blocks.push(Block { t, gap, feats: feats(sim), last });
+            if is_r {
+                // tick through the gap instead of sleeping
+                let mut turned_false = false;
+                for _ in 0..gap {
+                    t += 1;
+                    let n0 = sim.trace.len();
+                    one_tick(sim, t);
+                    res.gap_ticks += 1;
+                    if sim.trace.len() > n0 {
+                        for o in sim.trace.drain(n0..) {
+                            res.gap_out.push((bi, o));
+                        }
+                    }
+                    if !sim.k.can_block_update_idle_waiting(1) {
+                        turned_false = true;
+                    }
+                }
+                if turned_false {
+                    res.unblocked_in_gap += 1;
+                }
+            } else {
+                t += gap;
+            }
+            match ev {
+                Some(ev) => {
+                    next += 1;
+                    stale_used = false;
+                    last_activity = t;
+                    // wake: last_tick = now - 1 ms; handle the event; exactly one tick
+                    sim.now = t;
+                    sim.apply(ev);
+                    one_tick(sim, t);
+                    res.ticks += 1;
+                    last_tick = t;
+                    ms_elapsed = 1;
+                }
+                None => {
+                    res.ended_blocked = true;
+                    break;
+                }
+            }
+        } else {
+            let avail = matches!(arr.get(next), Some((te, _)) if *te <= t);
+            if avail {
+                sim.now = t;
+                sim.apply(&arr[next].1);
+                next += 1;
+                stale_used = false;
+                last_activity = t;
+            }
+            let e = t - last_tick;
+            for _ in 0..e {
+                one_tick(sim, t);
+                res.ticks += 1;
+            }
+            if e > 0 && stale_defer {
+                stale_defer = false;
+                stale_used = true;
+            }
+            last_tick = t;
+            ms_elapsed = e.min(u16::MAX as u64) as u16;
+            if !avail {
+                // nothing to read: sleep 1 ms
+                t += 1;
+                if next >= arr.len() {
+                    spin_after_last += 1;
+                    if plan.is_none() && spin_after_last > spin_bound {
+                        break;
+                    }
+                }
+            }
+        }
+    }
+    res
+}
+
+fn arrivals(h: &[Ev]) -> Vec<(u64, Ev)> {
+    let mut t = T0;
+    let mut v = vec![];
+    for e in h {
+        match e {
+            Ev::T(n) => t += *n as u64,
+            other => v.push((t, other.clone())),
+        }
+    }
+    v
+}
+
+struct Judged {
+    l: RunRes,
+    r: RunRes,
+    ltrace: Vec<Out>,
+    rtrace: Vec<Out>,
+    /// (signature, description)
+    viol: Vec<(String, String)>,
+}
+
+/// Run L and R on one (config, history) pair. Err = configuration rejected.
+fn judge_raw(cfg: &str, files: &FileMap, h: &[Ev], final_gap: u64, spin_bound: u64, zippy: bool, fix: Fix) -> Result<Judged, String> {
+    let arr = arrivals(h);
+    let mut sim_l = Sim::new_with_files(cfg, files.clone())?;
+    let l = run_loop(&mut sim_l, &arr, final_gap, spin_bound, None, fix);
+    let ltrace = std::mem::take(&mut sim_l.trace);
+    drop(sim_l);
+    let mut sim_r = Sim::new_with_files(cfg, files.clone())?;
+    let r = run_loop(&mut sim_r, &arr, final_gap, spin_bound, Some(&l.plan), Fix::default());
+    let rtrace = std::mem::take(&mut sim_r.trace);
+    drop(sim_r);
+    let mut viol = vec![];
+    // (a redundant release - of something the OS already has up - is ignored by an OS)
+    if let Some((bi, o)) = r.gap_out.iter().find(|(_, o)| !o.redundant) {
+        let b = &r.blocks[*bi];
+        let sig = format!("gap-output:{}", kind_class(&o.kind));
+        viol.push((
+            sig,
+            format!(
+                "kanata said it may block at t={} (gap {} ms{}), but ticking through that gap produced output {} ({} outputs in gaps in total)",
+                b.t,
+                b.gap,
+                if b.last { ", end of history" } else { "" },
+                o.short(),
+                r.gap_out.len()
+            ),
+        ));
+    }
+    if let Some(d) = first_diff(&ltrace, &rtrace) {
+        // class of the first differing output
+        let fa: Vec<&Out> = ltrace.iter().filter(|o| !o.redundant).collect();
+        let fb: Vec<&Out> = rtrace.iter().filter(|o| !o.redundant).collect();
+        let mut i = 0;
+        while i < fa.len() && i < fb.len() && fa[i].at == fb[i].at && fa[i].kind == fb[i].kind && fa[i].name == fb[i].name && fa[i].in_tick == fb[i].in_tick {
+            i += 1;
+        }
+        let cls = match (fa.get(i), fb.get(i)) {
+            (Some(x), Some(y)) => {
+                if x.kind == y.kind && x.name == y.name {
+                    format!("timing:{}", kind_class(&x.kind))
+                } else {
+                    format!("content:{}", kind_class(&x.kind))
+                }
+            }
+            (Some(x), None) => format!("only-when-slept:{}", kind_class(&x.kind)),
+            (None, Some(y)) => format!("only-when-ticked:{}", kind_class(&y.kind)),
+            (None, None) => "unknown".into(),
+        };
+        // which blocked gap precedes the difference
+        let at = fa.get(i).map(|o| o.at).into_iter().chain(fb.get(i).map(|o| o.at)).min().unwrap_or(0);
+        let prev_gap = l.blocks.iter().filter(|b| b.gap > 0 && b.t + b.gap <= at).last().map(|b| b.gap).unwrap_or(0);
+        let sig = format!("slept-vs-ticked:{cls}");
+        let _ = zippy;
+        viol.push((sig, format!("outputs differ between sleeping through the blocked gaps and ticking through them (slept vs ticked): {d}; the last blocked gap before the difference was {prev_gap} ms")));
+    }
+    Ok(Judged { l, r, ltrace, rtrace, viol })
+}
+
+/// `judge_raw` without any emulated repair; if that shows a violation, the emulated repairs are
+/// tried one at a time (then all together) to see whether one known cause explains everything. In
+/// that case the violations are replaced by a single one whose signature names the cause.
+fn judge(cfg: &str, files: &FileMap, h: &[Ev], final_gap: u64, spin_bound: u64, zippy: bool) -> Result<Judged, String> {
+    let mut j = judge_raw(cfg, files, h, final_gap, spin_bound, zippy, Fix::default())?;
+    if j.viol.is_empty() {
+        return Ok(j);
+    }
+    let mut tries: Vec<(&str, Fix)> = vec![
+        ("input-pause-countdown-frozen", Fix { pause: true, ..Default::default() }),
+        ("cancelled-macro-key-stale", Fix { stale: true, ..Default::default() }),
+        ("oneshot-release-due-with-zero-delay", Fix { oneshot0: true, ..Default::default() }),
+        ("dynamic-macro-recorder-delay-frozen", Fix { recording: true, ..Default::default() }),
+    ];
+    if zippy {
+        tries.push(("zippy-forced-reset-skipped", Fix { zippy: true, ..Default::default() }));
+    }
+    tries.push(("several", Fix { pause: true, stale: true, zippy, oneshot0: true, recording: true }));
+    for (name, fix) in tries {
+        if let Ok(jf) = judge_raw(cfg, files, h, final_gap, spin_bound, zippy, fix) {
+            if jf.viol.is_empty() {
+                let first = j.viol[0].clone();
+                j.viol = vec![(
+                    format!("known-cause:{name}"),
+                    format!("{} [{}] — disappears when the loop is kept from blocking while that state is pending ({name})", first.1, first.0),
+                )];
+                return Ok(j);
+            }
+        }
+    }
+    Ok(j)
+}
+
+/// Greedy minimisation of the history of a violating pair (same signature kept).
+fn minimise(cfg: &str, files: &FileMap, h: &[Ev], final_gap: u64, spin_bound: u64, zippy: bool, sig: &str) -> Vec<Ev> {
+    let still = |h: &[Ev]| -> bool { judge(cfg, files, h, final_gap, spin_bound, zippy).map(|j| j.viol.iter().any(|v| v.0 == sig)).unwrap_or(false) };
+    let mut h = h.to_vec();
+    let mut budget = 150;
+    let mut progress = true;
+    while progress && budget > 0 {
+        progress = false;
+        let mut i = 0;
+        while i < h.len() && budget > 0 {
+            let mut cand = h.clone();
+            let removed = cand.remove(i);
+            let mut try_it = true;
+            match removed {
+                Ev::P(k) => match cand.iter().skip(i).position(|e| *e == Ev::R(k)) {
+                    Some(j) => {
+                        cand.remove(i + j);
+                    }
+                    None => try_it = false,
+                },
+                Ev::R(_) => try_it = false,
+                _ => {}
+            }
+            budget -= 1;
+            if try_it && still(&cand) {
+                h = cand;
+                progress = true;
+                continue;
+            }
+            if let Ev::T(n) = h[i] {
+                if n > 1 {
+                    let mut cand = h.clone();
+                    cand[i] = Ev::T(n / 2);
+                    budget -= 1;
+                    if still(&cand) {
+                        h = cand;
+                        progress = true;
+                        continue;
+                    }
+                }
+            }
+            i += 1;
+        }
+    }
+    h
+}
+
+// ------------------------------------------------------------------------------------------
+// workload
+// ------------------------------------------------------------------------------------------
+
+#[derive(Clone, Debug, Default)]
+struct Shaped {
+    feature: &'static str,
+    text: String,
+    files: Vec<(String, String)>,
+    keys: Vec<String>,
+    numbers: Vec<u64>,
+    red: u64,
+    zippy: bool,
+}
+
+const FAMILIES: &[&str] = &[
+    "tap-hold", "one-shot", "tap-dance", "chords-v1", "chords-v2", "macro", "sequence", "caps-word", "hold-for-duration",
+    "on-idle", "mouse-repeat", "switch-key-timing", "zippychord", "dynamic-macro", "mixed", "pause-and-repress",
+];
+
+fn shaped(rng: &mut Rng, fam: usize) -> Shaped {
+    let t = *rng.pick(&[2u64, 5, 20, 50, 200]);
+    let t2 = *rng.pick(&[1u64, 3, 20, 60, 300]);
+    let red = *rng.pick(&[5u64, 5, 0, 1, 20]);
+    let conc = rng.coin();
+    let mut s = Shaped { feature: FAMILIES[fam], red, numbers: vec![t, t2, red], ..Default::default() };
+    let ks = |v: &[&str]| v.iter().map(|x| x.to_string()).collect::<Vec<_>>();
+    let defcfg = |extra: &str| format!("(defcfg process-unmapped-keys yes rapid-event-delay {red}{}{extra})\n", if conc { " concurrent-tap-hold yes" } else { "" });
+    match FAMILIES[fam] {
+        "tap-hold" => {
+            let v1 = *rng.pick(&["tap-hold", "tap-hold-press", "tap-hold-release"]);
+            let rp = *rng.pick(&[0u64, t, 2 * t, t2]);
+            s.numbers.push(rp);
+            let b = match rng.usize(4) {
+                0 => format!("(tap-hold-release-timeout {t2} {t2} q w e)"),
+                1 => format!("(tap-hold-press-timeout {t2} {t2} q w e)"),
+                2 => format!("(tap-hold-release-keys {t2} {t2} q w (c))"),
+                _ => format!("(tap-hold-except-keys {t2} {t2} q w (c))"),
+            };
+            s.keys = ks(&["a", "b", "c", "d"]);
+            s.text = format!("{}(defsrc a b c d)\n(deflayer l0 ({v1} {rp} {t} x y) {b} c lsft)\n", defcfg(""));
+        }
+        "one-shot" => {
+            let v = *rng.pick(&["one-shot", "one-shot-press", "one-shot-release", "one-shot-press-pcancel", "one-shot-release-pcancel"]);
+            s.keys = ks(&["a", "b", "c", "d"]);
+            s.text = format!("{}(defsrc a b c d)\n(deflayer l0 ({v} {t} lsft) ({v} {t2} (layer-while-held l1)) c (one-shot {t} C-S-x))\n(deflayer l1 1 2 3 4)\n", defcfg(""));
+        }
+        "tap-dance" => {
+            s.keys = ks(&["a", "b", "c"]);
+            s.text = format!("{}(defsrc a b c)\n(deflayer l0 (tap-dance {t} (x y z)) (tap-dance-eager {t2} (q w e)) c)\n", defcfg(""));
+        }
+        "chords-v1" => {
+            s.keys = ks(&["a", "b", "c", "d"]);
+            s.text = format!("{}(defsrc a b c d)\n(defchords cg {t} (k0) x (k1) y (k2) z (k0 k1) q (k0 k1 k2) w)\n(deflayer l0 (chord cg k0) (chord cg k1) (chord cg k2) d)\n", defcfg(""));
+        }
+        "chords-v2" => {
+            let mi = *rng.pick(&[5u64, 20, 100, 300]);
+            s.numbers.push(mi);
+            s.keys = ks(&["a", "b", "c", "d"]);
+            s.text = format!(
+                "(defcfg process-unmapped-keys yes concurrent-tap-hold yes rapid-event-delay {red}{})\n(defsrc a b c d)\n(deflayer l0 a b c d)\n(defchordsv2\n  (a b) x {t} all-released ()\n  (b c) y {t2} first-release ()\n  (a b c) (macro q 5 w) {t} first-release ())\n",
+                if rng.coin() { format!(" chords-v2-min-idle {mi}") } else { String::new() }
+            );
+        }
+        "macro" => {
+            s.keys = ks(&["a", "b", "c", "d", "e"]);
+            s.text = format!(
+                "{}(defsrc a b c d e)\n(deflayer l0 (macro x {t} y {t2} S-(z 3 q)) (macro-repeat w {t}) (macro-cancel-on-press x {t} y {t} z) (macro-release-cancel 1 {t2} 2 {t2} 3) e)\n",
+                defcfg("")
+            );
+        }
+        "sequence" => {
+            let mode = *rng.pick(&["visible-backspaced", "hidden-suppressed", "hidden-delay-type"]);
+            s.keys = ks(&["s", "a", "b", "c", "d"]);
+            s.text = format!(
+                "{}(defsrc s a b c d)\n(defvirtualkeys v0 (macro q) v1 (macro w 5 e))\n(deflayer l0 sldr a b c (sequence {t2} {mode}))\n(defseq v0 (a b) v1 (b c a))\n",
+                defcfg(&format!(" sequence-timeout {t} sequence-input-mode {mode}"))
+            );
+        }
+        "caps-word" => {
+            let a = match rng.usize(4) {
+                0 => format!("(caps-word {t})"),
+                1 => format!("(caps-word-toggle {t})"),
+                2 => format!("(caps-word-custom {t} (a b) (1 spc))"),
+                _ => format!("(caps-word-custom-toggle {t} (a b) (1))"),
+            };
+            s.keys = ks(&["w", "a", "b", "1", "spc"]);
+            s.text = format!("{}(defsrc w a b 1 spc)\n(deflayer l0 {a} a b 1 spc)\n", defcfg(""));
+        }
+        "hold-for-duration" => {
+            s.keys = ks(&["a", "b", "c"]);
+            s.text = format!("{}(defsrc a b c)\n(defvirtualkeys v0 lctl v1 (macro x 10 y))\n(deflayer l0 (hold-for-duration {t} v0) b (hold-for-duration {t2} v1))\n", defcfg(""));
+        }
+        "on-idle" => {
+            s.keys = ks(&["a", "b", "c"]);
+            s.text = format!(
+                "{}(defsrc a b c)\n(defvirtualkeys v0 x v1 lsft)\n(deflayer l0 (multi a (on-idle {t} tap-vkey v0)) b (multi (on-press press-vkey v1) (on-idle {t2} release-vkey v1)))\n",
+                defcfg("")
+            );
+        }
+        "mouse-repeat" => {
+            s.keys = ks(&["a", "b", "c", "d", "e"]);
+            let extra = format!("{}{}", if rng.coin() { " movemouse-smooth-diagonals yes" } else { "" }, if rng.coin() { " movemouse-inherit-accel-state yes" } else { "" });
+            s.text = format!(
+                "{}(defsrc a b c d e)\n(deflayer l0 (mwheel-up {t} 120) (movemouse-left {t} 5) (movemouse-accel-up {t2} {t} 1 10) mlft (mwheel-right {t2} 120))\n",
+                defcfg(&extra)
+            );
+        }
+        "switch-key-timing" => {
+            let big = *rng.pick(&[t, 255, 256, 300, 2303, 2304, 5000]);
+            s.numbers.push(big);
+            s.keys = ks(&["a", "b", "c", "d"]);
+            s.text = format!(
+                "{}(defsrc a b c d)\n(deflayer l0 (switch ((key-timing 1 lt {big})) x break () y break) b (switch ((key-timing 2 gt {t2})) z break () w break) (switch ((key-timing 1 gt {big})) q break ((key-timing 1 less-than {t2})) e break () r break))\n",
+                defcfg("")
+            );
+        }
+        "zippychord" => {
+            s.zippy = true;
+            s.keys = ks(&["d", "y", "1", "a", "spc"]);
+            let opts = match rng.usize(3) {
+                0 => String::new(),
+                1 => format!(" on-first-press-chord-deadline {t} idle-reactivate-time {t2}"),
+                _ => format!(" on-first-press-chord-deadline {} idle-reactivate-time {} smart-space full", t * 10, t2 * 10),
+            };
+            s.numbers.extend_from_slice(&[t * 10, t2 * 10, 500]);
+            s.text = format!("(defcfg process-unmapped-keys yes)\n(defsrc d y 1 a spc)\n(deflayer l0 d y 1 a spc)\n(defzippy zfile{opts})\n");
+            s.files = vec![("zfile".into(), "dy\tday\ndy 1\tMonday\nya\tyes\n".into())];
+        }
+        "dynamic-macro" => {
+            let beh = *rng.pick(&["constant", "recorded"]);
+            s.keys = ks(&["r", "s", "p", "a", "b"]);
+            s.text = format!(
+                "{}(defsrc r s p a b)\n(deflayer l0 (dynamic-macro-record 1) dynamic-macro-record-stop (dynamic-macro-play 1) a (tap-hold {t} {t} b lsft))\n",
+                defcfg(&format!(" dynamic-macro-replay-delay-behaviour {beh}"))
+            );
+        }
+        "mixed" => {
+            s.keys = ks(&["a", "b", "c", "d", "e", "f"]);
+            s.text = format!(
+                "{}(defsrc a b c d e f)\n(defvirtualkeys v0 rctl)\n(deflayer l0 (tap-hold {t} {t} a (layer-while-held l1)) (one-shot {t2} lsft) (macro x {t} y) (caps-word {t2}) (mwheel-down {t} 120) (multi f (hold-for-duration {t2} v0)))\n(deflayer l1 1 2 3 4 5 (tap-dance {t} (6 7)))\n",
+                defcfg("")
+            );
+        }
+        _ => {
+            // one-shot-pause-processing, tap-hold re-press window, rapid event delay
+            s.keys = ks(&["a", "b", "c"]);
+            s.text = format!("{}(defsrc a b c)\n(deflayer l0 (multi (one-shot-pause-processing {t}) a) (tap-hold {t2} {t} b lalt) (multi lctl (tap-hold-press {t} {t2} c ralt)))\n", defcfg(""));
+        }
+    }
+    s
+}
+
+fn gap_pools(numbers: &[u64]) -> (Vec<u32>, Vec<u32>) {
+    let mut small: Vec<u32> = vec![0, 0, 0, 1, 1, 2, 3, 7];
+    // weighted: very long gaps are expensive for the ticking run
+    let mut big: Vec<u32> = vec![1000, 1000, 1000, 1000, 1000, 1000, 10_001, 10_001, 10_001, 70_000, 70_000];
+    for &n in numbers.iter().take(10) {
+        if n == 0 || n > 65_535 {
+            continue;
+        }
+        let n = n as u32;
+        let v = [n - 1, n, n + 1];
+        if n <= 3000 {
+            small.extend_from_slice(&v);
+        } else {
+            big.extend_from_slice(&v);
+        }
+    }
+    (small, big)
+}
+
+/// physically consistent history with a bounded number of very long gaps
+fn gen_hist(rng: &mut Rng, keys: &[u16], n_events: usize, small: &[u32], big: &[u32], mut big_budget: usize, repeats: bool) -> Vec<Ev> {
+    let mut h = vec![];
+    let mut down: Vec<u16> = vec![];
+    let mut gap = |rng: &mut Rng, h: &mut Vec<Ev>| {
+        let g = if big_budget > 0 && rng.chance(1, 6) {
+            big_budget -= 1;
+            *rng.pick(big)
+        } else {
+            *rng.pick(small)
+        };
+        if g > 0 {
+            h.push(Ev::T(g));
+        }
+    };
+    for _ in 0..n_events {
+        let can_press = down.len() < keys.len();
+        let do_press = if down.is_empty() { true } else if !can_press { false } else { rng.chance(55, 100) };
+        if repeats && !down.is_empty() && rng.chance(1, 10) {
+            let k = *rng.pick(&down);
+            h.push(Ev::Rep(k));
+        } else if do_press {
+            let ups: Vec<u16> = keys.iter().copied().filter(|k| !down.contains(k)).collect();
+            let k = *rng.pick(&ups);
+            down.push(k);
+            h.push(Ev::P(k));
+        } else {
+            let i = rng.usize(down.len());
+            let k = down.remove(i);
+            h.push(Ev::R(k));
+        }
+        gap(rng, &mut h);
+    }
+    rng.shuffle(&mut down);
+    for k in down {
+        h.push(Ev::R(k));
+        gap(rng, &mut h);
+    }
+    h
+}
+
+/// a scripted opening for some families so that the interesting state exists before random input
+fn scripted_prefix(rng: &mut Rng, s: &Shaped) -> Vec<Ev> {
+    let k = |n: &str| osc(n);
+    let tap = |h: &mut Vec<Ev>, n: &str, hold: u32| {
+        h.push(Ev::P(k(n)));
+        if hold > 0 {
+            h.push(Ev::T(hold));
+        }
+        h.push(Ev::R(k(n)));
+    };
+    let mut h = vec![];
+    let g = *rng.pick(&[0u32, 1, 5, 30, 300, 1000, 1000, 10_001, 10_001, 70_000]);
+    match s.feature {
+        "dynamic-macro" => {
+            tap(&mut h, "r", 2);
+            h.push(Ev::T(*rng.pick(&[3u32, 20, 300])));
+            tap(&mut h, "a", *rng.pick(&[1u32, 10, 100]));
+            h.push(Ev::T(*rng.pick(&[0u32, 7, 400])));
+            tap(&mut h, "b", *rng.pick(&[1u32, 10, 300]));
+            h.push(Ev::T(5));
+            tap(&mut h, "s", 2);
+            h.push(Ev::T(g));
+            tap(&mut h, "p", 3);
+            h.push(Ev::T(*rng.pick(&[0u32, 1, 50, 2000, 2000, 10_001])));
+        }
+        "zippychord" => {
+            // dy -> day, released; a follow-up chord (dy 1 -> Monday) is then possible
+            h.push(Ev::P(k("d")));
+            h.push(Ev::T(3));
+            h.push(Ev::P(k("y")));
+            h.push(Ev::T(10));
+            h.push(Ev::R(k("d")));
+            h.push(Ev::R(k("y")));
+            h.push(Ev::T(g));
+            if rng.coin() {
+                tap(&mut h, "1", 5);
+                h.push(Ev::T(30));
+            }
+        }
+        "sequence" => {
+            tap(&mut h, "s", 2);
+            h.push(Ev::T(*rng.pick(&[0u32, 1, 3])));
+            tap(&mut h, "a", 2);
+            h.push(Ev::T(g.min(1000)));
+        }
+        "caps-word" => {
+            tap(&mut h, "w", 3);
+            h.push(Ev::T(*rng.pick(&[1u32, 5, 30])));
+            tap(&mut h, "a", 3);
+            h.push(Ev::T(g));
+        }
+        _ => {}
+    }
+    h
+}
+
+struct Case {
+    kind: &'static str,
+    s: Shaped,
+    kinds_used: Vec<&'static str>,
+    hists: Vec<Vec<Ev>>,
+    final_gaps: Vec<u64>,
+}
+
+fn n_real(ctx: &Ctx) -> u64 {
+    ctx.tier.sel(40, 300)
+}
+fn n_shaped(ctx: &Ctx) -> u64 {
+    ctx.tier.sel(960, 24_000)
+}
+fn n_random(ctx: &Ctx) -> u64 {
+    ctx.tier.sel(800, 20_000)
+}
+
+fn random_profile() -> Profile {
+    let mut p = Profile::non_latching();
+    p.timeouts = vec![1, 2, 5, 20, 50, 200];
+    p.max_depth = 3;
+    p
+}
+
+fn make_case(ctx: &Ctx, idx: u64) -> Case {
+    // idx is relative to the start of the emulator cases
+    let mut rng = Rng::for_case(ctx.seed, "C07", "case", idx);
+    let nh = ctx.tier.sel(5, 10);
+    let (kind, s, kinds_used) = if idx < n_shaped(ctx) {
+        // (not idx % 16: the runner shards by idx % workers, a family must not live on one worker)
+        let fam = ((idx + idx / FAMILIES.len() as u64) as usize) % FAMILIES.len();
+        ("shaped", shaped(&mut rng, fam), vec![])
+    } else {
+        let g = gen::generate(&mut rng, &random_profile());
+        let ku: Vec<&'static str> = g.kinds_used.iter().copied().collect();
+        (
+            "random",
+            Shaped { feature: "random-grammar", text: g.text, files: g.files, keys: g.keys, numbers: g.numbers, red: g.rapid_event_delay, zippy: false },
+            ku,
+        )
+    };
+    let keys: Vec<u16> = s.keys.iter().map(|k| osc(k)).collect();
+    let (small, big) = gap_pools(&s.numbers);
+    let mut hists = vec![];
+    let mut final_gaps = vec![];
+    for i in 0..nh {
+        let n = 4 + rng.usize(ctx.tier.sel(30, 60));
+        let mut h = if i % 2 == 0 { scripted_prefix(&mut rng, &s) } else { vec![] };
+        let calm = i % 3 == 2;
+        // "calm" histories: one key at a time most of the time, so blocked points while a single
+        // feature is active are frequent
+        let h2 = if calm {
+            let mut v = vec![];
+            let mut budget = 2;
+            for _ in 0..n / 2 {
+                let k = *rng.pick(&keys);
+                v.push(Ev::P(k));
+                let hold = if budget > 0 && rng.chance(1, 8) {
+                    budget -= 1;
+                    *rng.pick(&big)
+                } else {
+                    *rng.pick(&small)
+                };
+                if hold > 0 {
+                    v.push(Ev::T(hold));
+                }
+                v.push(Ev::R(k));
+                let g = if budget > 0 && rng.chance(1, 8) {
+                    budget -= 1;
+                    *rng.pick(&big)
+                } else {
+                    *rng.pick(&small)
+                };
+                if g > 0 {
+                    v.push(Ev::T(g));
+                }
+            }
+            v
+        } else {
+            {
+                let nbig = 1 + rng.usize(2);
+                gen_hist(&mut rng, &keys, n, &small, &big, nbig, i % 4 == 1)
+            }
+        };
+        h.extend(h2);
+        hists.push(h);
+        final_gaps.push(*rng.pick(&[1u64, 50, 300, 1000, 1000, 1000, 10_001, 70_000]));
+    }
+    Case { kind, s, kinds_used, hists, final_gaps }
+}
+
+fn spin_bound(s: &Shaped) -> u64 {
+    let sum: u64 = s.numbers.iter().map(|n| (*n).min(70_000)).sum();
+    (4 * sum + 40 * (s.red + 2) + 3000).min(400_000)
+}
+
+fn gap_bucket(g: u64) -> &'static str {
+    match g {
+        0 => "gap_0",
+        1 => "gap_1",
+        2..=9 => "gap_2_9",
+        10..=99 => "gap_10_99",
+        100..=999 => "gap_100_999",
+        1000..=9999 => "gap_1000_9999",
+        10_000..=65_534 => "gap_10000_65534",
+        _ => "gap_ge_65535",
+    }
+}
+
+fn files_map(files: &[(String, String)]) -> FileMap {
+    let mut m = FileMap::default();
+    for (k, v) in files {
+        m.insert(k.clone(), v.clone());
+    }
+    m
+}
+
+static DEBUG: std::sync::atomic::AtomicBool = std::sync::atomic::AtomicBool::new(false);
+static MINIMISED: std::sync::Mutex<std::collections::BTreeSet<String>> = std::sync::Mutex::new(std::collections::BTreeSet::new());
+
+fn run_emu_case(ctx: &Ctx, idx: u64, out: &mut CaseOut) {
+    let mut c = make_case(ctx, idx);
+    if ctx.verbose {
+        eprintln!("config ({} / {}):\n{}", c.kind, c.s.feature, c.s.text);
+        // debugging aid: KV_C07_HIST="d:A t:5 u:A" replaces the histories, KV_C07_TRACE=1 prints every loop iteration
+        if let Ok(hs) = std::env::var("KV_C07_HIST") {
+            c.hists = vec![crate::checks::c01::parse_hist(&hs)];
+            c.final_gaps = vec![std::env::var("KV_C07_FG").ok().and_then(|s| s.parse().ok()).unwrap_or(1)];
+        }
+        if std::env::var("KV_C07_TRACE").is_ok() {
+            DEBUG.store(true, std::sync::atomic::Ordering::Relaxed);
+        }
+    }
+    let files = files_map(&c.s.files);
+    let bound = spin_bound(&c.s);
+    let mut accepted = false;
+    for (hi, h) in c.hists.iter().enumerate() {
+        let fg = c.final_gaps[hi];
+        if ctx.verbose {
+            eprintln!("history {hi}: {}  (final gap {fg})", render_hist(h));
+        }
+        // a crash of the code under test belongs to C02 (reported there); it ends this case
+        let j = match guarded(|| judge(&c.s.text, &files, h, fg, bound, c.s.zippy)) {
+            Ok(Ok(j)) => j,
+            Ok(Err(e)) => {
+                if ctx.verbose {
+                    eprintln!("rejected: {e}");
+                }
+                break;
+            }
+            Err((msg, loc)) => {
+                if crate::core::runner::loc_is_harness(&loc) {
+                    panic!("{msg} at {loc}");
+                }
+                out.inc("histories_crashed_reported_by_C02");
+                if ctx.verbose {
+                    eprintln!("crash at {loc}: {msg}");
+                }
+                break;
+            }
+        };
+        accepted = true;
+        out.inc("histories");
+        out.count("events", h.iter().filter(|e| !matches!(e, Ev::T(_))).count() as u64);
+        out.count("loop_iterations", j.l.plan.len() as u64);
+        out.count("ticks_L", j.l.ticks);
+        out.count("ticks_R", j.r.ticks + j.r.gap_ticks);
+        out.count("outputs_compared", j.ltrace.len() as u64);
+        let nb = j.l.blocks.len() as u64;
+        out.count("blocked_points", nb);
+        if nb > 0 {
+            out.inc("histories_with_blocked_point");
+        }
+        let min_num = c.s.numbers.iter().copied().filter(|n| *n > 0).min().unwrap_or(u64::MAX);
+        let max_num = c.s.numbers.iter().copied().max().unwrap_or(0);
+        let mut fmask = 0u32;
+        for b in &j.l.blocks {
+            out.count("skipped_ticks", b.gap);
+            out.inc(gap_bucket(b.gap));
+            if b.gap > 0 {
+                out.inc("blocked_points_with_gap");
+                out.inc(&format!("blocked_in:{}", c.s.feature));
+            }
+            if b.gap >= min_num {
+                out.inc("gaps_crossing_a_configured_timeout");
+            }
+            if b.gap > max_num && max_num > 0 {
+                out.inc("gaps_crossing_every_configured_timeout");
+            }
+            if b.last {
+                out.inc("blocked_at_end_of_history");
+            }
+            fmask |= b.feats;
+            for (i, name) in FEATS.iter().enumerate() {
+                if b.feats & (1 << i) != 0 && b.gap > 0 {
+                    out.inc(&format!("block_with:{name}"));
+                }
+            }
+        }
+        if !j.l.ended_blocked {
+            out.inc("histories_never_blocking_at_end");
+        }
+        out.count("gaps_where_predicate_turned_false_while_ticking", j.r.unblocked_in_gap);
+        out.count("iterations_where_R_predicate_differs", j.r.pred_mismatch);
+        if j.viol.is_empty() {
+            out.count("iterations_where_R_predicate_differs_without_any_output_difference", j.r.pred_mismatch);
+        }
+        out.max("gap", j.l.blocks.iter().map(|b| b.gap).max().unwrap_or(0));
+        if nb > 0 {
+            let mut ku = c.kinds_used.join(",");
+            if ku.is_empty() {
+                ku = c.s.feature.to_string();
+            }
+            let buckets: std::collections::BTreeSet<&str> = j.l.blocks.iter().map(|b| gap_bucket(b.gap)).collect();
+            out.tag(format!("{ku}|f{fmask:x}|{}", buckets.into_iter().collect::<Vec<_>>().join(",")));
+        }
+        for (sig, what) in &j.viol {
+            // minimisation is expensive: once per signature and worker process is enough (the
+            // runner keeps the smallest index per signature)
+            let first_time = MINIMISED.lock().map(|mut g| g.insert(sig.clone())).unwrap_or(false);
+            let hmin = if first_time || ctx.verbose { minimise(&c.s.text, &files, h, fg, bound, c.s.zippy, sig) } else { h.clone() };
+            let jm = judge(&c.s.text, &files, &hmin, fg, bound, c.s.zippy).ok();
+            let (lt, rt, blocks, gapout) = match &jm {
+                Some(jm) => (
+                    jm.ltrace.iter().map(|o| o.short()).collect::<Vec<_>>(),
+                    jm.rtrace.iter().map(|o| o.short()).collect::<Vec<_>>(),
+                    jm.l.blocks.iter().map(|b| json!({"t": b.t, "gap": b.gap, "end": b.last})).collect::<Vec<_>>(),
+                    jm.r.gap_out.iter().take(20).map(|(bi, o)| json!({"blocked_point": bi, "output": o.short()})).collect::<Vec<_>>(),
+                ),
+                None => (vec![], vec![], vec![], vec![]),
+            };
+            let tail = |v: Vec<String>| if v.len() > 120 { v[v.len() - 120..].to_vec() } else { v };
+            out.violate(
+                sig.clone(),
+                what.clone(),
+                json!({
+                    "config": c.s.text, "files": c.s.files, "feature": c.s.feature,
+                    "history": render_hist(&hmin), "history_original": render_hist(h), "final_gap": fg,
+                    "time_convention": format!("virtual wall clock in ms starting at {T0}; Nth event arrives at {T0} + sum of the t: gaps before it; outputs are stamped with the wall time of the tick that produced them"),
+                    "observed": {"slept_L": tail(lt), "ticked_R": tail(rt), "outputs_in_gap_ticks_R": gapout, "blocked_points_L": blocks},
+                    "expected": "no output in gap ticks; L and R traces identical",
+                }),
+            );
+        }
+    }
+    if accepted {
+        out.inc("configs_accepted");
+        out.inc(if c.kind == "shaped" { "configs_shaped" } else { "configs_random" });
+    } else {
+        out.inc("configs_rejected");
+        if c.kind == "shaped" {
+            out.inc("configs_shaped_rejected");
+        }
+    }
+    if idx % 500 == 3 {
+        out.sample = Some(json!({"kind": c.kind, "feature": c.s.feature, "config": c.s.text, "history": render_hist(&c.hists[0]), "final_gap": c.final_gaps[0]}));
+    }
+}
+
+// ------------------------------------------------------------------------------------------
+// the real threaded loop
+// ------------------------------------------------------------------------------------------
+
+fn real_profile() -> Profile {
+    let mut p = Profile::full().only(&[K::Key, K::OutChord, K::Trans, K::NoOp, K::UseDefsrc, K::LayerSwitch, K::LayerWhileHeld, K::Multi, K::Unicode, K::MouseBtn, K::ReleaseKey, K::ReleaseLayer]);
+    p.boundary_numbers = false;
+    p.chords_v2 = false;
+    p.sequences = false;
+    p.vkeys = 0;
+    p.max_depth = 2;
+    p.min_keys = 3;
+    p.max_keys = 6;
+    p.mouse_in_defsrc = false;
+    p
+}
+
+struct RealCase {
+    cfg: String,
+    h: Vec<Ev>,
+    /// sleep before each event in microseconds
+    sleeps_us: Vec<u64>,
+}
+
+fn make_real_case(ctx: &Ctx, idx: u64) -> RealCase {
+    let mut rng = Rng::for_case(ctx.seed, "C07", "real", idx);
+    let g = gen::generate(&mut rng, &real_profile());
+    let keys: Vec<u16> = g.keys.iter().map(|k| osc(k)).collect();
+    // at most 18 + 6 events: the 32-slot input queue can never overflow whatever the scheduling
+    let n = 6 + rng.usize(13);
+    let h: Vec<Ev> = crate::gen::hist::consistent(&mut rng, &keys, n, &[0], false).into_iter().filter(|e| !matches!(e, Ev::T(_))).collect();
+    let sleeps_us = h.iter().map(|_| *rng.pick(&[0u64, 0, 0, 150, 600, 1100, 2500, 5000, 9000, 25_000])).collect();
+    RealCase { cfg: g.text, h, sleeps_us }
+}
+
+enum RealOutcome {
+    Rejected,
+    Inconclusive(String),
+    Done { real: Vec<String>, wall_ms: u64 },
+}
+
+fn run_real_loop(c: &RealCase, dir: &std::path::Path) -> RealOutcome {
+    use kanata_parser::keys::OsCode;
+    use kanata_state_machine::oskbd::{KeyEvent, KeyValue};
+    use kanata_state_machine::{Kanata, ValidatedArgs};
+    use std::time::{Duration, Instant};
+    if std::fs::create_dir_all(dir).is_err() {
+        return RealOutcome::Inconclusive("cannot create scratch dir".into());
+    }
+    let path = dir.join("cfg.kbd");
+    if std::fs::write(&path, &c.cfg).is_err() {
+        return RealOutcome::Inconclusive("cannot write scratch config".into());
+    }
+    let args = ValidatedArgs { paths: vec![path], tcp_server_address: None, symlink_path: None, nodelay: true };
+    let arc = match Kanata::new_arc(&args) {
+        Ok(a) => a,
+        Err(_) => return RealOutcome::Rejected,
+    };
+    let t0 = Instant::now();
+    let (tx, rx) = std::sync::mpsc::sync_channel::<KeyEvent>(100);
+    Kanata::start_processing_loop(arc.clone(), rx, None, true);
+    for (e, us) in c.h.iter().zip(c.sleeps_us.iter()) {
+        if *us > 0 {
+            std::thread::sleep(Duration::from_micros(*us));
+        }
+        let (code, value) = match e {
+            Ev::P(k) => (*k, KeyValue::Press),
+            Ev::R(k) => (*k, KeyValue::Release),
+            _ => continue,
+        };
+        let Some(code) = OsCode::from_u16(code) else { continue };
+        if tx.send(KeyEvent { code, value }).is_err() {
+            return RealOutcome::Inconclusive("processing thread closed the channel".into());
+        }
+    }
+    // The channel holds at most 100 events. WakeUp events have no effect on the layout (the real
+    // input layer uses them to wake the loop); once 101 of them have been accepted, at least one
+    // has been received by the loop, hence every real event before it has been received *and*
+    // handled (the loop handles events strictly one after the other).
+    for _ in 0..101 {
+        if tx.send(KeyEvent { code: OsCode::KEY_A, value: KeyValue::WakeUp }).is_err() {
+            return RealOutcome::Inconclusive("processing thread closed the channel".into());
+        }
+    }
+    // now wait until the queued events have been processed: kanata idle and queue empty, seen on
+    // three consecutive polls with an unchanged output stream
+    let deadline = Instant::now() + Duration::from_secs(5);
+    let mut last_len = usize::MAX;
+    let mut stable = 0;
+    loop {
+        std::thread::sleep(Duration::from_millis(2));
+        let (len, idle) = {
+            let k = arc.lock();
+            (k.kbd_out.outputs.events.len(), k.is_idle() && k.layout.b().queue.is_empty())
+        };
+        if len != last_len || !idle {
+            last_len = len;
+            stable = 0;
+        } else {
+            stable += 1;
+            if stable >= 3 {
+                break;
+            }
+        }
+        if Instant::now() > deadline {
+            drop(tx);
+            return RealOutcome::Inconclusive("real loop did not settle within 5 s of wall time".into());
+        }
+    }
+    // closing the channel makes the processing thread return
+    drop(tx);
+    let real = std::mem::take(&mut arc.lock().kbd_out.outputs.events);
+    RealOutcome::Done { real, wall_ms: t0.elapsed().as_millis() as u64 }
+}
+
+/// Debugging / evidence aid (replay mode only): KV_C07_REALPROBE=<config file> KV_C07_HIST="d:A t:100 u:A t:3000"
+/// runs the history on the real processing thread with `t:N` as real sleeps of N ms and prints
+/// when (wall-clock ms since start) each output line appeared.
+fn real_probe(cfg_path: &str, h: &[Ev]) {
+    use kanata_parser::keys::OsCode;
+    use kanata_state_machine::oskbd::{KeyEvent, KeyValue};
+    use kanata_state_machine::{Kanata, ValidatedArgs};
+    use std::time::{Duration, Instant};
+    let args = ValidatedArgs { paths: vec![cfg_path.into()], tcp_server_address: None, symlink_path: None, nodelay: true };
+    let arc = match Kanata::new_arc(&args) {
+        Ok(a) => a,
+        Err(e) => {
+            eprintln!("rejected: {e}");
+            return;
+        }
+    };
+    let (tx, rx) = std::sync::mpsc::sync_channel::<KeyEvent>(100);
+    Kanata::start_processing_loop(arc.clone(), rx, None, true);
+    let t0 = Instant::now();
+    let mut seen = 0usize;
+    let mut poll = |until: Instant| loop {
+        {
+            let k = arc.lock();
+            let ev = &k.kbd_out.outputs.events;
+            while seen < ev.len() {
+                if !(ev[seen].starts_with("t:") && ev[seen].ends_with("ms")) {
+                    println!("{:>7} ms  out  {}", t0.elapsed().as_millis(), ev[seen]);
+                }
+                seen += 1;
+            }
+        }
+        if Instant::now() >= until {
+            break;
+        }
+        std::thread::sleep(Duration::from_micros(500));
+    };
+    for e in h {
+        match e {
+            Ev::T(n) => poll(Instant::now() + Duration::from_millis(*n as u64)),
+            Ev::P(k) | Ev::R(k) | Ev::Rep(k) => {
+                let value = match e {
+                    Ev::P(_) => KeyValue::Press,
+                    Ev::R(_) => KeyValue::Release,
+                    _ => KeyValue::Repeat,
+                };
+                if let Some(code) = OsCode::from_u16(*k) {
+                    println!("{:>7} ms  in   {}", t0.elapsed().as_millis(), render_hist(std::slice::from_ref(e)));
+                    let _ = tx.send(KeyEvent { code, value });
+                }
+            }
+            _ => {}
+        }
+    }
+    poll(Instant::now() + Duration::from_millis(50));
+    let k = arc.lock();
+    println!("end: is_idle={} prev_keys={:?}", k.is_idle(), k.prev_keys);
+    drop(k);
+    drop(tx);
+}
+
+fn run_real_case(ctx: &Ctx, idx: u64, out: &mut CaseOut) {
+    if ctx.verbose {
+        if let (Ok(p), Ok(hs)) = (std::env::var("KV_C07_REALPROBE"), std::env::var("KV_C07_HIST")) {
+            real_probe(&p, &crate::checks::c01::parse_hist(&hs));
+            return;
+        }
+    }
+    let c = make_real_case(ctx, idx);
+    let dir = std::path::PathBuf::from(format!("/verif/.work/{}/c07-real-{idx}", std::process::id()));
+    if ctx.verbose {
+        eprintln!("config:\n{}\nevents: {}\nsleeps_us: {:?}", c.cfg, render_hist(&c.h), c.sleeps_us);
+    }
+    let outcome = run_real_loop(&c, &dir);
+    // give the processing thread a moment to observe the closed channel and drop its Kanata
+    std::thread::sleep(std::time::Duration::from_millis(3));
+    let _ = std::fs::remove_dir_all(&dir);
+    let _ = std::fs::remove_dir(format!("/verif/.work/{}", std::process::id()));
+    match outcome {
+        RealOutcome::Rejected => out.inc("real_configs_rejected"),
+        RealOutcome::Inconclusive(why) => {
+            out.inc("real_inconclusive");
+            out.inconclusive = Some(format!("RealLoop: {why}"));
+        }
+        RealOutcome::Done { real, wall_ms } => {
+            out.inc("real_schedules");
+            out.count("real_events", c.h.len() as u64);
+            out.count("real_wall_ms", wall_ms);
+            let (rs, ros) = ordered_stream(&real);
+            // the deterministic stepper on the same configuration and event order
+            let mut h = vec![];
+            for e in &c.h {
+                h.push(e.clone());
+                h.push(Ev::T(3));
+            }
+            h.push(Ev::T(60));
+            let step: Vec<String> = match Sim::new(&c.cfg) {
+                Ok(mut sim) => {
+                    sim.keep_trace = false;
+                    let mut lines = vec![];
+                    for e in &h {
+                        match e {
+                            Ev::T(n) => {
+                                for _ in 0..*n {
+                                    let _ = sim.k.tick_ms(1, &None);
+                                    lines.append(&mut sim.k.kbd_out.outputs.events);
+                                }
+                            }
+                            other => {
+                                // through Sim so that the event path is the stepper's
+                                sim.apply(other);
+                            }
+                        }
+                    }
+                    lines
+                }
+                Err(_) => {
+                    out.inc("real_stepper_rejected");
+                    return;
+                }
+            };
+            let (ss, sos) = ordered_stream(&step);
+            out.count("real_outputs_compared", ss.len() as u64);
+            out.tag(format!("real|{}ev|{}out", c.h.len(), ss.len().min(40)));
+            if rs != ss {
+                let i = rs.iter().zip(ss.iter()).position(|(a, b)| a != b).unwrap_or(rs.len().min(ss.len()));
+                out.violate(
+                    "real-loop-stream-differs",
+                    format!("the real processing thread emitted a different ordered OS stream than the stepper (first difference at output #{i}: {:?} vs {:?})", rs.get(i), ss.get(i)),
+                    json!({"config": c.cfg, "history": render_hist(&c.h), "sleeps_us_before_each_event": c.sleeps_us,
+                        "observed": {"real_loop": rs, "real_loop_os_end": ros.describe()}, "expected": {"stepper": ss, "stepper_os_end": sos.describe()}}),
+                );
+            }
+            if idx % 16 == 1 {
+                out.sample = Some(json!({"kind": "real-loop", "config": c.cfg, "events": render_hist(&c.h), "sleeps_us": c.sleeps_us, "stream": ss}));
+            }
+        }
+    }
+}
 
 impl Check for C07Check {
     fn id(&self) -> &'static str {
         "C07"
     }
-    fn n_cases(&self, _ctx: &Ctx) -> u64 {
-        0
+    fn n_cases(&self, ctx: &Ctx) -> u64 {
+        n_real(ctx) + n_shaped(ctx) + n_random(ctx)
     }
-    fn run_case(&self, _ctx: &Ctx, _idx: u64) -> CaseOut {
-        CaseOut::new()
+    fn describe(&self, ctx: &Ctx, idx: u64) -> Value {
+        if idx < n_real(ctx) {
+            let c = make_real_case(ctx, idx);
+            return json!({"kind": "real-loop", "config": c.cfg, "events": render_hist(&c.h), "sleeps_us": c.sleeps_us});
+        }
+        let c = make_case(ctx, idx - n_real(ctx));
+        json!({"kind": c.kind, "feature": c.s.feature, "config": c.s.text, "files": c.s.files, "histories": c.hists.iter().map(|h| render_hist(h)).collect::<Vec<_>>(), "final_gaps": c.final_gaps})
+    }
+    fn run_case(&self, ctx: &Ctx, idx: u64) -> CaseOut {
+        let mut out = CaseOut::new();
+        if idx < n_real(ctx) {
+            run_real_case(ctx, idx, &mut out);
+        } else {
+            run_emu_case(ctx, idx - n_real(ctx), &mut out);
+        }
+        out
     }
     fn rule(&self) -> String {
-        "not implemented".into()
+        "two kinds of case. (1) emulator cases: one configuration (16 hand-shaped families, one per time-dependent feature: tap-hold variants, one-shot variants, tap-dance lazy/eager, chords v1, chords v2 with chords-v2-min-idle, macro variants, sequences (sldr, sequence, defseq, three input modes), caps-word variants, hold-for-duration, on-idle, mwheel/movemouse/movemouse-accel, switch key-timing at the compression edges, zippychord with deadlines, dynamic-macro record/replay, a mixed one, one-shot-pause-processing/rapid-event-delay; then the whole non-latching action grammar at random) x 5 (quick) / 10 (thorough) physically consistent histories (random overlapping, 'calm' one-key-at-a-time, scripted openings that put the feature into its pending state; OS repeats in a quarter) with gaps drawn from {0,1,2,3,7, T-1,T,T+1 for every number T in the configuration, 1000, 10001, 70000}. Each history is executed twice on the real code in a virtual-time reproduction of the processing loop: L sleeps whenever can_block_update_idle_waiting says so, R replays L's iterations but ticks through every slept gap; plus a final gap after the last event. (2) real-loop cases: a time-insensitive configuration (plain keys, output chords, multi, layers, release-key/-layer, unicode, mouse buttons, overrides) is written to a scratch file, Kanata::new_arc + the real start_processing_loop thread are fed <= 24 events through the real channel with real sleeps from {0..25 ms}; the ordered OS stream is compared with the stepper's. Non-trivial = history with at least one blocked point; distinct = (action kinds or family, state features present at the blocked points, gap-length buckets).".into()
     }
     fn assumptions(&self) -> Vec<String> {
-        vec![]
+        vec![
+            "the emulator models one admissible schedule of the real loop: integer-millisecond time, zero processing time, an event is visible to the iteration that runs at its arrival time; ms_elapsed is what handle_time_ticks would return under that schedule".into(),
+            "R ticks g times where L slept g ms and then performs the same wake-up (event, one tick); a free-running ticker is not used as reference because its one-tick phase shift on wake legitimately changes outcomes that sit exactly on a timeout".into(),
+            "the predicate turning false during R's gap ticks is counted, not reported, unless an output or a later difference follows".into(),
+            "real-loop cases use only actions whose result does not depend on millisecond timing, no OS repeats, and at most 24 events (so the 32-slot queue cannot overflow under any scheduling); wall-clock trouble is inconclusive, never a violation".into(),
+            "latching virtual-key uses, cmd, clipboard and live-reload actions are not generated; a crash of the code under test ends the case and is C02's to report".into(),
+        ]
+    }
+    fn floors(&self, ctx: &Ctx) -> Vec<(&'static str, u64)> {
+        let mut v: Vec<(&'static str, u64)> = vec![
+            ("histories", 3000),
+            ("blocked_points_with_gap", 5000),
+            ("skipped_ticks", 1_000_000),
+            ("gaps_crossing_a_configured_timeout", 1000),
+            ("gap_ge_65535", 100),
+            ("gap_10000_65534", 100),
+            ("configs_random", 300),
+            ("real_schedules", ctx.tier.sel(25, 200)),
+            ("blocked_in:tap-hold", 20),
+            ("blocked_in:one-shot", 20),
+            ("blocked_in:tap-dance", 20),
+            ("blocked_in:chords-v1", 20),
+            ("blocked_in:chords-v2", 20),
+            ("blocked_in:macro", 20),
+            ("blocked_in:sequence", 20),
+            ("blocked_in:caps-word", 20),
+            ("blocked_in:hold-for-duration", 20),
+            ("blocked_in:on-idle", 20),
+            ("blocked_in:mouse-repeat", 20),
+            ("blocked_in:switch-key-timing", 20),
+            ("blocked_in:zippychord", 20),
+            ("blocked_in:dynamic-macro", 20),
+        ];
+        v.push(("blocked_in:random-grammar", 200));
+        v
+    }
+    fn watchdog_s(&self, _ctx: &Ctx) -> u64 {
+        60
     }
 }
